@@ -127,7 +127,7 @@ func MarshalInputToOptions(input protoiface.MarshalInput) proto.MarshalOptions {
 func UnmarshalInputToOptions(input protoiface.UnmarshalInput) proto.UnmarshalOptions {
 	return proto.UnmarshalOptions{
 		NoUnkeyedLiterals: input.NoUnkeyedLiterals,
-		Merge:             false,
+		Merge:             true, // nested targets are freshly allocated or must be merged into (repeated occurrences of a singular message field merge)
 		AllowPartial:      true, // defaults to true as the required fields check is done after the unmarshalling
 		DiscardUnknown:    input.Flags&protoiface.UnmarshalDiscardUnknown != 0,
 		Resolver:          input.Resolver,
